@@ -13,6 +13,9 @@ from checks import common, hist_common, pipe_common
 
 def gen(rng, tier):
     n0 = rng.choice([1, 2, 3, 5, 8, 13, 40, rng.randrange(1, 301)])
+    huge = rng.random() < 0.02
+    if huge:
+        n0 = rng.choice([9999, 10000, 10001, 12000])          # beyond the documented 10^4 limit of the 3MR heuristics
     names = [f'f{i}' for i in range(40)]
     def mk(n, prefix):
         out, seen = [], set()
@@ -27,13 +30,15 @@ def gen(rng, tier):
     if rng.random() < 0.4:
         lists.append(mk(rng.choice([1, 2, 7, rng.randrange(1, 60)]), 'b'))
     nops = rng.choice([1, 2, 3, 5, 10, 30, rng.randrange(1, 201)])
+    if huge:
+        nops = rng.choice([1, 2, 3])
     ops = []
     cap = rng.randrange(1, 2 * n0 + 1)
     for _ in range(nops):
         li = rng.randrange(len(lists))
         if rng.random() < 0.3:
             size = len(lists[li])
-            cap = rng.choice([1, max(1, size - 1), size, size + 1, rng.randrange(1, 2 * size + 1)])
+            cap = rng.choice([1, max(1, size - 1), size, size + 1, rng.randrange(1, 2 * size + 1), 2 ** 15])
         op = {'list': li, 'cap': cap}
         if rng.random() < 0.05:
             op['tick'] = rng.choice([0.5, 6.0, 3600.0, 86400.0])
@@ -103,6 +108,7 @@ PIPE_PROFILE = {
     'cap': cap_fn,
     'cli_extra': {'interaction_order': lambda rng, wl: 2 if len(wl['header']) <= 6 and rng.random() < 0.4 else None},
     'card_names': ['False', 'True'],
+    'tail_prob': 0.08,
 }
 
 RULE = ('hist: history = seeded list of Batch(list, cap[, permuted order]) operations on the real prior_combinations_sample and its process-global counter in a forked process; '
